@@ -78,6 +78,33 @@ pub fn cases(_tier: &str, _seed: u64) -> Vec<Case> {
             }
             v.push(c);
             if k > 0 { continue; }
+            // re-serialise what was parsed: every field goes back to the position it was read from (an
+            // unassigned opcode or response code is written back as one), also after the opcode and the
+            // response code have been replaced
+            if let Ok(p) = Packet::parse(&b) {
+                let rb = p.build_bytes_vec().unwrap_or_default();
+                let mut c = Case::new(format!("build {}", text::packet(&p)), format!("ok {}", text::hex(&rb))).tag("reserialise");
+                if rb.len() == 12 {
+                    let s2 = rfc(u16::from_be_bytes([rb[2], rb[3]]));
+                    let named_op = matches!(spec.opcode, 0 | 1 | 2 | 4 | 5);
+                    let named_rc = spec.rcode <= 10;
+                    let same_flags = (s2.qr, s2.aa, s2.tc, s2.rd, s2.ra, s2.ad, s2.cd, s2.z) == (spec.qr, spec.aa, spec.tc, spec.rd, spec.ra, spec.ad, spec.cd, 0);
+                    if !same_flags || (named_op && s2.opcode != spec.opcode) || (!named_op && matches!(s2.opcode, 0 | 1 | 2 | 4 | 5))
+                        || (named_rc && s2.rcode != spec.rcode) || (!named_rc && s2.rcode <= 10) || rb[0..2] != b[0..2] {
+                        c = c.fail("header-reserialised", format!("word {:#06x} parsed and written back as {:#06x}", w, u16::from_be_bytes([rb[2], rb[3]])));
+                    }
+                } else { c = c.fail("header-reserialised", format!("word {:#06x}: {} bytes written", w, rb.len())); }
+                v.push(c);
+                if w % 16 == 5 {
+                    let mut q = p.clone();
+                    *q.opcode_mut() = OPCODE::StandardQuery;
+                    *q.rcode_mut() = RCODE::ServerFailure;
+                    let qb = q.build_bytes_vec().unwrap_or_default();
+                    let mut c = Case::new(format!("build {}", text::packet(&q)), format!("ok {}", text::hex(&qb))).tag("reserialise-modified");
+                    if qb.len() == 12 { let s3 = rfc(u16::from_be_bytes([qb[2], qb[3]])); if s3.opcode != 0 || s3.rcode != 2 { c = c.fail("header-modified", format!("word {:#06x}: opcode / rcode replaced after parsing, written as opcode {} rcode {}", w, s3.opcode, s3.rcode)); } }
+                    v.push(c);
+                }
+            }
             // peek functions, counts of three shapes
             for counts in [[1u16, 2, 3, 4], [0xFFFF, 0, 0x8000, 0x00FF]] {
                 let b = hdr(*id ^ w, w, counts);
